@@ -138,6 +138,7 @@ impl Run {
             .ok()
             .and_then(|s| s.parse().ok())
             .unwrap_or(budget);
+        spawn_watchdog(args.prop.clone(), budget);
         Run {
             prop: args.prop.clone(),
             tier: args.tier,
@@ -450,4 +451,28 @@ pub fn threads() -> usize {
 /// Silence the default panic message for panics we catch on purpose.
 pub fn quiet_panics() {
     std::panic::set_hook(Box::new(|_| {}));
+}
+
+/// Resource watchdog: a check that exceeds its RSS cap or runs far beyond its wall budget is a
+/// machinery failure (exit 2), never a verdict.
+fn spawn_watchdog(prop: String, budget_s: f64) {
+    let rss_cap_gb: f64 = std::env::var("VERIF_RSS_CAP_GB").ok().and_then(|s| s.parse().ok()).unwrap_or(20.0);
+    let hard_wall = budget_s * 3.0 + 120.0;
+    let start = Instant::now();
+    std::thread::spawn(move || loop {
+        std::thread::sleep(std::time::Duration::from_millis(250));
+        if let Ok(s) = std::fs::read_to_string("/proc/self/statm") {
+            if let Some(pages) = s.split_whitespace().nth(1).and_then(|x| x.parse::<f64>().ok()) {
+                let gb = pages * 4096.0 / 1e9;
+                if gb > rss_cap_gb {
+                    eprintln!("MACHINERY-ERROR: [{prop}] RSS {gb:.1} GB exceeds cap {rss_cap_gb} GB - aborting (not a verdict)");
+                    std::process::exit(2);
+                }
+            }
+        }
+        if start.elapsed().as_secs_f64() > hard_wall {
+            eprintln!("MACHINERY-ERROR: [{prop}] wall time exceeded hard cap {hard_wall:.0}s - aborting (not a verdict)");
+            std::process::exit(2);
+        }
+    });
 }
